@@ -1,3 +1,3 @@
 From Coq Require Import Extraction ExtrOcamlBasic.
-From MW Require Import Common.Str C09.Gen_tables C09.Model.
-Extraction "../ocaml/c09/c09_model.ml" protect restore segments t_uniq_at uniq_at text_token strip marker is_split_special.
+From MW Require Import Common.Str C09.Gen_tables C09.Model C09.PreModel.
+Extraction "../ocaml/c09/c09_model.ml" protect restore segments t_uniq_at uniq_at text_token strip marker is_split_special remove_nowiki_tags.
